@@ -101,9 +101,21 @@ def r_arc(ctx, fqs, floor=0, derived=True):
     run.floor('R-ARC', 'stores into accessors', n, floor)
 
 
+def _elemify(t):
+    """rewrite every L[i] with i the index of the iteration over L into the element of that iteration"""
+    if not isinstance(t, tuple):
+        return t
+    if t and t[0] == 'sub' and len(t) == 3 and isinstance(t[2], tuple) and t[2] and t[2][0] == 'idx' and len(t[2]) == 3 and t[2][1] == t[1]:
+        return ('iter', _elemify(t[1]), t[2][2])
+    return tuple(_elemify(x) for x in t)
+
+
 def classify_store(ctx, f, nd, tgt, val, K, mask_in_scope):
     if val is None:
         return 'ok', 'deletion'
+    # L[i] with i the index of the iteration over L is the element of that iteration (for p in range(len(L)): ... L[p])
+    if val[0] == 'sub' and val[2][0] == 'idx' and val[2][1] == val[1] and len(val[2]) == 3:
+        val = ('iter', val[1], val[2][2])
     if val == ('c', -1):
         return 'ok', '(iv) constant -1'
     if val[0] == 'aug':
@@ -176,10 +188,15 @@ def classify_store(ctx, f, nd, tgt, val, K, mask_in_scope):
                     else:
                         polx = pol
                     if polx and a[0] == 'sub' and a[1][0] == 'v' and is_mask_name(f, a[1][1]):
-                        if a[2] == u:
+                        if a[2] == u or _elemify(a[2]) == _elemify(u):
                             need['u'] = True
-                        if a[2] == w:
+                        if a[2] == w or _elemify(a[2]) == _elemify(w):
                             need['w'] = True
+                mask_tests = [a_ for a_, p_ in ctx.conds(f, nd) if p_ and any(
+                    x[0] == 'sub' and x[1][0] == 'v' and is_mask_name(f, x[1][1]) for x in walk_term(a_))]
+                if (not need['u'] or not need['w']) and len(mask_tests) >= 2:
+                    # two tests of the mask guard the store; which vertices they test is written in a form not matched here
+                    return 'undecided', 'store guarded by %d mask tests whose subjects are not matched with the arc' % len(mask_tests)
                 if not need['u']:
                     return 'bad', '(i) arc stored without testing that its source vertex is in the mask'
                 if not need['w']:
@@ -187,7 +204,8 @@ def classify_store(ctx, f, nd, tgt, val, K, mask_in_scope):
             # any further condition that depends on the vertex being processed drops arcs of some vertices
             for atom, pol in ctx.conds(f, nd):
                 core = atom[2] if (atom[0] == 'cmp' and atom[1] in ('==', '!=') and atom[3][0] == 'c') else atom
-                if core[0] == 'sub' and core[1][0] == 'v' and is_mask_name(f, core[1][1]) and core[2] in (u, w):
+                if core[0] == 'sub' and core[1][0] == 'v' and is_mask_name(f, core[1][1]) and \
+                        (core[2] in (u, w) or _elemify(core[2]) in (_elemify(u), _elemify(w))):
                     continue
                 if any(x == u or x == w[1] for x in walk_term(atom)):
                     return 'bad', ('(i) the arc store is additionally conditioned on %s (%s), which depends on the vertex being '
@@ -693,6 +711,13 @@ def r_fix(ctx):
             okc = False
             why = ''
             for atom, pol in conds:
+                # `flag is False` / `flag == False` is `not flag`, `flag is True` is `flag`, for a flag that only holds True / False
+                if atom[0] == 'cmp' and atom[1] in ('is', '==', 'is not', '!=') and atom[3] in (('c', True), ('c', False)) and \
+                        atom[2][0] == 'v' and isinstance(atom[2][2], tuple) and all(
+                            TermBuilder(f, f.defs[i].node).def_term(i) in (('c', True), ('c', False)) for i in atom[2][2]):
+                    same = atom[1] in ('is', '==')
+                    pol = pol if (atom[3] == ('c', True)) == same else (not pol)
+                    atom = atom[2]
                 if is_change_indicator(ctx, f, atom, carried, body):
                     # `old == new` is true when nothing changed; a difference / flag is true when something changed
                     sense = change_sense(ctx, f, atom, carried, body)
